@@ -87,7 +87,9 @@ static int bucket(int d) {
     return 10;
 }
 // Bookkeeping common to all ops: counters, non-trivial rule, sample.
+static std::string g_lastop;
 static void book(Ctx &c, const Case &cs) {
+    g_lastop = cs.op;
     c.count("op:" + cs.op);
     if (cs.n >= 0) {
         if (cs.m <= 34 && cs.n <= 34) c.count(fmt("pair:%d:%d", cs.m, cs.n));
@@ -251,6 +253,20 @@ static void pick_pair(Tape &t, int maxm, int maxn, int *m, int *n) {
     else { *m = (int) t.below((uint64_t) maxm + 1); *n = (int) t.below((uint64_t) maxn + 1); }
     if (*m > maxm) *m = maxm;
     if (*n > maxn) *n = maxn;
+}
+// same for the operations built on the bit-serial pstm_div (cost ~ 64*m*m digit operations): large operands are rarer
+static void pick_pair_heavy(Tape &t, int maxm, int maxn, int *m, int *n) {
+    unsigned r = (unsigned) t.below(32);
+    if (r < 27) { *m = (int) t.below(35); *n = (int) t.below(35); }
+    else if (r < 30) { *m = 35 + (int) t.below(36); *n = 35 + (int) t.below(36); }
+    else { *m = (int) t.below((uint64_t) maxm + 1); *n = (int) t.below((uint64_t) maxn + 1); }
+    if (*m > maxm) *m = maxm;
+    if (*n > maxn) *n = maxn;
+}
+static int pick_nd_heavy(Tape &t, int maxnd) {
+    unsigned r = (unsigned) t.below(32);
+    int v = r < 27 ? (int) t.below(35) : r < 30 ? 35 + (int) t.below(36) : (int) t.below((uint64_t) maxnd + 1);
+    return v > maxnd ? maxnd : v;
 }
 static pstm_digit pick_digit(Tape &t, bool *edge) {
     unsigned r = (unsigned) t.below(8);
@@ -672,7 +688,7 @@ static void op_div(Tape &t, Ctx &c) {
     Case cs;
     cs.op = "div";
     int m, n;
-    pick_pair(t, LIM, LIM, &m, &n);
+    pick_pair_heavy(t, LIM, LIM, &m, &n);
     n = imax(1, n);
     cs.ca = pick_cls(t, false);
     Mag A = gen_mag(t, m, cs.ca, NULL);
@@ -728,7 +744,7 @@ static void op_mod(Tape &t, Ctx &c) {
     Case cs;
     cs.op = "mod";
     int m, n;
-    pick_pair(t, LIM, 70, &m, &n);
+    pick_pair_heavy(t, LIM, 70, &m, &n);
     n = imax(1, n);
     cs.ca = pick_cls(t, false);
     Mag B = gen_modulus(t, n, false, 1, cs);
@@ -761,12 +777,12 @@ static void op_mod(Tape &t, Ctx &c) {
 static void op_mulmod(Tape &t, Ctx &c) {
     Case cs;
     cs.op = "mulmod";
-    int k = imax(1, pick_nd(t, 70));
+    int k = imax(1, pick_nd_heavy(t, 70));
     Mag M = gen_modulus(t, k, false, 1, cs);
     k = (int) M.size();
     // operands: usually already reduced (<= k digits), sometimes longer
     int m, n;
-    if (t.coin()) { m = pick_nd(t, k); n = pick_nd(t, k); } else pick_pair(t, 90, 90, &m, &n);
+    if (t.coin()) { m = pick_nd(t, k); n = pick_nd(t, k); } else pick_pair_heavy(t, 90, 90, &m, &n);
     cs.ca = pick_cls(t, true);
     if (cs.ca >= EQ) m = k;
     Mag A = gen_mag(t, m, cs.ca, &M);
@@ -810,11 +826,11 @@ static void op_mulmod(Tape &t, Ctx &c) {
 static void op_invmod(Tape &t, Ctx &c) {
     Case cs;
     cs.op = "invmod";
-    int k = imax(1, pick_nd(t, 66));
+    int k = imax(1, pick_nd_heavy(t, 66));
     Mag M = gen_modulus(t, k, false, 2, cs);
     k = (int) M.size();
     bool wild = t.below(5) == 0; // operand not reduced / negative: weaker oracle
-    int m = wild ? pick_nd(t, 70) : pick_nd(t, k);
+    int m = wild ? pick_nd_heavy(t, 70) : pick_nd(t, k);
     cs.ca = pick_cls(t, true);
     if (cs.ca >= EQ) m = k;
     Mag A = gen_mag(t, m, cs.ca, &M);
@@ -924,8 +940,8 @@ static void op_exptmod(Tape &t, Ctx &c) {
     Case cs;
     cs.op = "exptmod";
     static const int sizes[6] = { 512, 1024, 1536, 2048, 3072, 4096 };
-    unsigned r = (unsigned) t.below(32);
-    int bits = sizes[r < 16 ? 0 : r < 25 ? 1 : r < 27 ? 2 : r < 30 ? 3 : r < 31 ? 4 : 5];
+    unsigned r = (unsigned) t.below(64);
+    int bits = sizes[r < 40 ? 0 : r < 56 ? 1 : r < 58 ? 2 : r < 62 ? 3 : r < 63 ? 4 : 5];
     int nd = bits / 64, kind = 0;
     Mag Pm = expt_modulus(t, bits, kind, cs);
     Z zp, zg, zx, want;
@@ -1195,7 +1211,7 @@ static std::vector<uint8_t> gen_bytes(Tape &t, int len, Case &cs) {
 static void op_bin(Tape &t, Ctx &c) {
     Case cs;
     cs.op = "bin";
-    int q = pick_nd(t, LIM - 1), rem = (int) t.below(8);
+    int q = pick_nd(t, LIM - 4), rem = (int) t.below(8); // pstm_init_for_read_unsigned_bin allocates len/8 + 2 digits
     static const int lz[8] = { 0, 0, 0, 0, 1, 2, 8, 9 };
     int zeros = lz[t.below(8)];
     int len = q * 8 + rem;
@@ -1248,7 +1264,7 @@ static void op_bin(Tape &t, Ctx &c) {
 static void op_asn(Tape &t, Ctx &c) {
     Case cs;
     cs.op = "read_asn";
-    int q = t.below(4) ? pick_nd(t, 70) : pick_nd(t, LIM - 1), rem = (int) t.below(8);
+    int q = t.below(4) ? pick_nd(t, 70) : pick_nd(t, LIM - 4), rem = (int) t.below(8);
     int len = imax(1, q * 8 + rem);
     std::vector<uint8_t> val = gen_bytes(t, len, cs);
     bool pad = (val[0] & 0x80) || t.below(8) == 0;
@@ -1449,7 +1465,7 @@ static const OpEntry OPS[] = {
     { "add", 24, f_add }, { "sub", 24, f_sub }, { "sub_s", 16, f_sub_s }, { "add_d", 5, f_add_d }, { "sub_d", 5, f_sub_d },
     { "mul_comba", 28, f_mul }, { "sqr_comba", 12, f_sqr }, { "mul_d", 6, f_mul_d }, { "mul_2", 5, f_mul_2 }, { "div_2", 5, f_div_2 },
     { "div_2d", 8, op_div_2d }, { "div", 22, op_div }, { "mod", 22, op_mod }, { "mulmod", 24, op_mulmod }, { "invmod", 18, op_invmod },
-    { "exptmod", 3, op_exptmod }, { "lshd", 5, f_lshd }, { "rshd", 5, f_rshd }, { "2expt", 4, f_2expt }, { "cmp", 20, f_cmp },
+    { "exptmod", 2, op_exptmod }, { "lshd", 5, f_lshd }, { "rshd", 5, f_rshd }, { "2expt", 4, f_2expt }, { "cmp", 20, f_cmp },
     { "cmp_mag", 20, f_cmp_mag }, { "cmp_d", 6, f_cmp_d }, { "montgomery", 30, op_mont }, { "bin", 8, op_bin }, { "read_asn", 6, op_asn },
     { "read_radix", 6, op_radix }, { "copy", 8, op_copy },
 };
@@ -1472,7 +1488,7 @@ static void prop_inner(Tape &t, Ctx &c);
 static bool g_timing = false;
 static void prop(Tape &t, Ctx &c) {
     double t0 = g_timing ? now_s() : 0;
-    struct Tm { double t0; Ctx &c; ~Tm() { if (g_timing) { double d = now_s() - t0; c.count(d > 5 ? "timing:>5s" : d > 1 ? "timing:>1s" : d > 0.2 ? "timing:>0.2s" : "timing:<=0.2s"); static double mx = 0; if (d > mx) { mx = d; fprintf(stderr, "[timing] new max %.3fs\n", d); } } } } tm{ t0, c };
+    struct Tm { double t0; Ctx &c; ~Tm() { if (g_timing) { double d = now_s() - t0; c.count(d > 5 ? "timing:>5s" : d > 1 ? "timing:>1s" : d > 0.2 ? "timing:>0.2s" : "timing:<=0.2s"); c.count("us:" + g_lastop, (uint64_t) (d * 1e6)); static double mx = 0; if (d > mx) { mx = d; fprintf(stderr, "[timing] new max %.3fs\n", d); } } } } tm{ t0, c };
     try { prop_inner(t, c); }
     catch (const Fail &f) {
         if (f.sig.compare(0, 7, "harness") == 0) throw;
